@@ -13,12 +13,16 @@ def run(tier, seed, t0):
     data, meta, summ, events, out = oc.replay(PID, tier, seed)
     v = vlib.Verdict(PID)
     nrel = oc.classify_rel(v, events)
-    laws = [e for e in events if e["op"] == "law"]
+    laws = [e for e in events if e["op"] in ("law", "equiv")]
     lp = os.path.join(out, "laws.ndjson")
     open(lp, "w").write("".join(json.dumps(e) + "\n" for e in laws))
     evs, mism, r = vlib.judge_trace("Trace_C09", lp)
     for m in mism:
         e = evs[m[1] - 1]
+        if e["op"] == "equiv":
+            v.violation({"property": PID, "event": e, "law": m[2], "what": "A=%s and its other representation A2=%s answer differently against B=%s: %s vs %s (Intersects both ways, Contains, Within both ways)" % (
+                json.dumps(e["A"])[:200], json.dumps(e["A2"])[:200], json.dumps(e["B"])[:200], e["r1"], e["r2"])})
+            continue
         v.violation({"property": PID, "event": e, "law": m[2], "what": "law '%s' fails for A=%s B=%s" % (m[2], json.dumps(e["A"])[:200], json.dumps(e["B"])[:200])})
     rc = v.finish()
     cov = {
@@ -32,9 +36,13 @@ def run(tier, seed, t0):
                 "TLC checks the algebra laws on the model. Every pair is replayed in both call directions (A.Contains(B) and "
                 "B.Within(A), ...) on objects built by constructors or Parse under child-index thresholds; pairs with Circles "
                 "(6 circles x 138 objects, both orders, and circle x circle) are recorded as law events validated by Trace_C09. "
-                "distinct_nontrivial = replayed ordered pairs + law events",
+                "The same law events are recorded for all ordered pairs of 39 'wild' planar objects outside the exact-safe set (polygons "
+                "with one and two holes, lines along / across / inside a hole, degenerate rectangles, bent and collinear lines, concave "
+                "polygons, Multi* and collections of them), and transparency events compare the six answers of each of them with those "
+                "of its other representations (Rect / five-point Polygon, Point / SimplePoint, Feature around it) against every partner. "
+                "distinct_nontrivial = replayed ordered pairs + law and transparency events",
         "samples": [{"law_event": laws[len(laws) // 2]}],
-        "relation_calls": summ["relation_calls"], "relation_mismatches": nrel, "law_events_judged_by_tlc": len(laws), "law_violations": len(mism),
+        "relation_calls": summ["relation_calls"], "relation_mismatches": nrel, "law_events_judged_by_tlc": len(laws), "wild_law_events": summ.get("wild_law_events"), "transparency_events": summ.get("equivalence_events"), "law_violations": len(mism),
         "known_finding_hits": v.known_hits,
     }
     vlib.write_evidence(PID, tier, seed, t0, cov, [vlib.TOOLS, vlib.A_FLOAT,
